@@ -756,7 +756,48 @@ func c05Crafted(r *kit.Rand) ([]byte, string) {
 	levels := kit.Pick(r, []int{8, 20, 40, 64, 200})
 	fan := kit.Pick(r, []int{2, 2, 3, 16})
 	what := ""
-	switch k := r.Intn(12); k {
+	switch k := r.Intn(13); k {
+	case 12: // image XObjects whose alternates are images with alternates, and so on; every one of them fails to decode in the end
+		depth := kit.Pick(r, []int{3, 6, 12, 40})
+		width := kit.Pick(r, []int{1, 2, 8})
+		what = fmt.Sprintf("image-alternates-chain(depth=%d,width=%d)", depth, width)
+		imgs := make([]uint32, depth)
+		for i := range imgs {
+			imgs[i] = alloc()
+		}
+		flaw := kit.Pick(r, []string{"Metadata", "SMask", "none"})
+		mask := r.Chance(1, 4)
+		for i, n := range imgs {
+			d := kit.XDict{"Type": kit.XName("XObject"), "Subtype": kit.XName("Image"), "Width": int64(1), "Height": int64(1),
+				"ColorSpace": kit.XName("DeviceGray"), "BitsPerComponent": int64(8)}
+			if mask {
+				d = kit.XDict{"Type": kit.XName("XObject"), "Subtype": kit.XName("Image"), "Width": int64(1), "Height": int64(1), "ImageMask": true}
+			}
+			if i+1 < depth {
+				var alts kit.XArray
+				for j := 0; j < width; j++ {
+					alts = append(alts, kit.XDict{"Image": kit.XRef{Num: imgs[i+1]}})
+				}
+				d["Alternates"] = alts
+			} else if r.Bool() {
+				d["Alternates"] = kit.XArray{kit.XDict{"Image": kit.XRef{Num: imgs[0]}}} // back to the first one
+			}
+			switch flaw {
+			case "Metadata":
+				d["Metadata"] = int64(42)
+			case "SMask":
+				d["SMask"] = kit.XName("NotAStream")
+			}
+			rev.Actions[n] = kit.XAction{Value: &kit.XStream{Dict: d, Raw: []byte("x")}}
+		}
+		content := alloc()
+		rev.Actions[content] = kit.XAction{Value: &kit.XStream{Dict: kit.XDict{}, Raw: []byte("q 10 0 0 10 0 0 cm /Im0 Do Q")}}
+		pg := alloc()
+		rev.Actions[pg] = kit.XAction{Value: kit.XDict{"Type": kit.XName("Page"), "Parent": kit.XRef{Num: 2},
+			"MediaBox": kit.XArray{int64(0), int64(0), int64(200), int64(200)}, "Contents": kit.XRef{Num: content},
+			"Resources": kit.XDict{"XObject": kit.XDict{"Im0": kit.XRef{Num: imgs[0]}}}}}
+		pagesRoot["Kids"] = kit.XArray{kit.XRef{Num: pg}}
+		pagesRoot["Count"] = int64(1)
 	case 11: // a Type 3 font whose glyph procedures are anything but glyph procedures
 		what = "type3-glyph-procedures"
 		font := alloc()
